@@ -72,7 +72,10 @@ P = {
          'asindices is proved with an inductive loop invariant for any number of selectors (indices in range) and exactly for 1-2 selectors; itercut, iterstack, iteraddfield, iteraddrownumbers, setheader/extendheader/pushheader are proved cell-exact per data row by the stateless-body rule for all tables, row lengths, indices and flags (one output row per input row, only the requested cells change, padding/trimming as documented, no IndexError); iterfieldconvert.transform_row proved per cell.'
          ' Bounded stand-in for the rest: ' 'Every field/row transform of the statement vs a cell-by-cell reference over positional tables with ragged rows, duplicate names, all selections and insertion indices.',
          TB + ' asindices contract used modularly; stateless-body composition is the engine meta-theorem.', TECH_D),
- 'C14': B('Reshape round trips (melt/recast, transpose, flatten/unflatten, dicts/columns) and cell-exact expansion operators over all small rectangular tables, key/variable splits, periods.'),
+ 'C14': (True, 'exploration',
+         'Reshape round trips (melt/recast, transpose, flatten/unflatten, dicts/columns) and cell-exact expansion operators over all small rectangular tables, key/variable splits, periods.'
+         ' Proved sub-claim (does not decide the round-trip clauses): ' 'Streaming half proved for all tables: itermelt (nested stateless rule) emits for every (row, variable) pair exactly one row = key cells + variable name + that cell, or nothing when the row is too short, under the header key fields + variable + value; FlattenView emits every data cell once, row-major. The round trips (melt/recast, transpose, unflatten, dicts/columns), pivot and the regex expansions are NOT proved.',
+         BNOTE + ' recast/pivot are two-pass algorithms with sampling and nested groupby; regular expressions are opaque.', TECH_D),
  'C15': (True, 'proof',
          "csv and pickle glue as typestate proofs over the effect trace on every path (every I/O call may raise): _writecsv and CSVView open in the right mode, wrap with the SAME encoding/errors and newline='', hand the caller's csv arguments over unchanged, write/yield each row exactly once in order, write the header iff asked, flush before detach, detach and close on every exit; _writepickle dumps each row independently with the caller's protocol."
          ' Bounded stand-in for the rest: ' 'to*/append*/from* round trips over a hostile cell alphabet x encodings x csv dialect arguments x source kinds x header flags; bytes of to+append == to(cat).',
